@@ -315,15 +315,19 @@ def to_tks(text, toks, keep_eol=False):
     """lexer tokens of an expression text -> model tokens (white space dropped)"""
     b = text.encode("utf-8")
     out = []
+    prev = None
     for t in toks:
         k = t["kind"]
         lex = b[t["offset"]:t["offset"] + t["length"]].decode("utf-8")
+        before, prev = prev, (k, lex)
         if k in ("Whitespace", "Eof") or (k == "Eol" and not keep_eol):
             continue
         if k == "Identifier":
             out.append({"k": "ident", "s": lex})
         elif k == "StringToken":
-            out.append({"k": "str", "s": lex})
+            # a string token written directly after the identifier `x` (no white space): a shell-expanded literal
+            # when parse_value meets the `x` (src/parser.rs next_is_shell_expanded_string)
+            out.append({"k": "strAdj" if before == ("Identifier", "x") else "str", "s": lex})
         elif k == "Backtick":
             out.append({"k": "bt", "s": lex})
         elif k in KIND_TO_TK:
@@ -338,7 +342,8 @@ def gen_model_expr(rng, depth, lvl=3):
     def value(d):
         r = rng.random()
         if d <= 0 or r < 0.35:
-            return rng.choice(["'s%d'" % rng.randrange(5), "v%d" % rng.randrange(3), "`b%d`" % rng.randrange(3), "arch()", "else", "x", "assert_", "iff"])
+            return rng.choice(["'s%d'" % rng.randrange(5), "v%d" % rng.randrange(3), "`b%d`" % rng.randrange(3), "arch()", "else", "x", "assert_", "iff",
+                               "x's%d'" % rng.randrange(5), "x 's%d'" % rng.randrange(5)])
         if r < 0.55:
             return "(%s)" % expr(d - 1)
         if r < 0.7:
@@ -449,7 +454,8 @@ def gen_header(rng, idx):
         for k in range(n):
             a = leaf(rng.randint(0, 2))
             # an argument that starts with `(` or `/` would continue the previous one when that is a name or a value
-            if k > 0 and (a.startswith("(") or a.startswith("/")):
+            # (kept half of the time: the two parsers must then agree on the merged reading - `v0 (…)` is a call, `x 's'` a literal)
+            if k > 0 and (a.startswith("(") or a.startswith("/")) and rng.random() < 0.5:
                 a = "'s3'"
             args.append(a)
         return "(t%d%s)" % (n, "".join(" " + a for a in args))
